@@ -212,7 +212,7 @@ func corpusFiles() []*descriptorpb.FileDescriptorProto {
 	dep2.MessageType = append(dep2.MessageType, d2.m)
 	dep2.Service = append(dep2.Service, &descriptorpb.ServiceDescriptorProto{Name: proto.String("DepService"), Method: []*descriptorpb.MethodDescriptorProto{
 		{Name: proto.String("Get"), InputType: proto.String(".corpus.dep.Dep"), OutputType: proto.String(".corpus.dep.Dep2")},
-		{Name: proto.String("Put"), InputType: proto.String(".corpus.dep.Dep2"), OutputType: proto.String(".corpus.dep.Names")}}})
+		{Name: proto.String("Put"), InputType: proto.String(".corpus.dep.Names"), OutputType: proto.String(".corpus.dep.Dep")}}})
 	files = append(files, dep2)
 
 	// --- scalars: kinds x {singular, packed, unpacked}, tag widths 1..3
@@ -254,7 +254,8 @@ func corpusFiles() []*descriptorpb.FileDescriptorProto {
 	sc.EnumType = append(sc.EnumType, &descriptorpb.EnumDescriptorProto{Name: proto.String("Level"), Options: &descriptorpb.EnumOptions{AllowAlias: proto.Bool(true)},
 		Value: []*descriptorpb.EnumValueDescriptorProto{
 			{Name: proto.String("LEVEL_UNSPECIFIED"), Number: proto.Int32(0)}, {Name: proto.String("LEVEL_LOW"), Number: proto.Int32(1)}, {Name: proto.String("LEVEL_MIN"), Number: proto.Int32(1)},
-			{Name: proto.String("LEVEL_HIGH"), Number: proto.Int32(2)}, {Name: proto.String("LEVEL_MAX"), Number: proto.Int32(2)}, {Name: proto.String("LEVEL_NEG"), Number: proto.Int32(-3)}}})
+			{Name: proto.String("LEVEL_HIGH"), Number: proto.Int32(2)}, {Name: proto.String("LEVEL_NEG"), Number: proto.Int32(-3)}, {Name: proto.String("LEVEL_MAX"), Number: proto.Int32(2)},
+			{Name: proto.String("LEVEL_DEFAULT"), Number: proto.Int32(0)}}})
 	s.field("s_level", next(), tEnum, ".corpus.scalars.Level")
 	sc.MessageType = append(sc.MessageType, s.m)
 	files = append(files, sc)
